@@ -29,13 +29,14 @@ Record caseKM := mkKM {
   q_model : bool;                       (* compare with the model (rotation validated against the hooks, erode = false) *)
   q_exact : bool;                       (* integer-valued input: the C06 clause applies *)
   q_contract : bool;                    (* input inside the usage contract: the C02 clauses apply *)
-  q_impls : list impl_res               (* one output per (pool, repetition) *)
+  q_impls : list impl_res;              (* one output per (pool, repetition) *)
+  q_prefix : list impl_res              (* compared cases: the output for max_iter = 0, 1, .. max_iter - 1 (pool 4) *)
 }.
 
 Definition fl (b : N) : spec_float := f64_of_bits b.
 
-Definition model_of (R : reds F64) (c : caseKM) : res (list N) :=
-  kmeans F64 R (option_map (map (map fl)) (q_rot c)) (q_dim c)
+Definition trace_of (R : reds F64) (c : caseKM) : res (list (list N)) :=
+  kmeans_trace F64 R (option_map (map (map fl)) (q_rot c)) (q_dim c)
          (mkSettings F64 (fl (q_tol c)) (fl (q_delta c)) (q_max_iter c) (q_max_bal c)
                      (q_erode c) (q_hilbert c) (q_early c))
          (map (map fl) (q_pts c)) (map fl (q_ws c)) (q_part c).
@@ -56,8 +57,16 @@ Definition all_same (l : list impl_res) : bool :=
   | x :: t => forallb (impl_eqb x) t
   end.
 
-Definition is_flag (r : res (list N)) : bool :=
+Definition is_flag {X} (r : res X) : bool :=
   match r with Panic 99 => true | _ => false end.
+
+(* the run with max_iter = i ends with the assignments of iteration min(i, last)
+   of the longer run (same inputs, same settings otherwise) *)
+Fixpoint prefix_ok (part : list N) (tr : list (list N)) (i : nat) (outs : list impl_res) : bool :=
+  match outs with
+  | [] => true
+  | o :: t => res_matches (Ok (nth i tr (last tr part))) o && prefix_ok part tr (S i) t
+  end.
 
 (* class: 100 not compared with the model | 101 compared, the checked run raised
    the schedule-sensitivity flag | 102 compared, no flag (then every schedule of
@@ -73,10 +82,17 @@ Definition evalKM (c06 : bool) (c : caseKM) : verdict :=
   let prop06 := negb (q_exact c) || q_erode c || all_same (q_impls c) in
   let '(corr, cl) :=
     if q_model c then
-      let r := model_of (reds_chk F64 sum_ok_f64 val_ok_f64 cmp_ok_f64 T_seq P_id) c in
-      let flagged := is_flag r in
-      let r := if flagged then model_of (reds_tree F64 T_seq P_id) c else r in
-      (forallb (res_matches r) (q_impls c), if flagged then 101%N else 102%N)
+      (* the traced model: its last entry is the model's result (KMeansTrace.kmeans_trace_final) *)
+      let tr := trace_of (reds_chk F64 sum_ok_f64 val_ok_f64 cmp_ok_f64 T_seq P_id) c in
+      let flagged := is_flag tr in
+      let tr := if flagged then trace_of (reds_tree F64 T_seq P_id) c else tr in
+      let r := final_of_trace (q_part c) tr in
+      (forallb (res_matches r) (q_impls c) &&
+       match tr with
+       | Ok l => prefix_ok (q_part c) l 0 (q_prefix c)
+       | _ => forallb (res_matches r) (q_prefix c)
+       end,
+       if flagged then 101%N else 102%N)
     else (true, 100%N) in
   {| corr_ok := corr; prop_ok := if c06 then prop06 else prop02; cls := cl |}.
 
